@@ -18,7 +18,7 @@ func init() {
 			"C04-WHO only Valid and exist call the recursive walker, exist is reached only for the rules exist and required. Nil sub-objects are skipped silently (shared with C13). The recursion is the same function, so the inductive step is the whole argument for arbitrary depth.",
 		Assume:  []string{"acyclic object graphs (property's exclusion)"},
 		Trusted: []string{"go/types", "go/ssa"},
-		Run:     func(c *Ctx) { runC04(c); sharedDeclaredRules(c); runExportPred(c, "C04-EXPORT"); base(c, "STATE", "LOOP"); runToStrCases(c, "C04-PATHKEY"); runC04Strip(c, "C04-STRIP") },
+		Run:     func(c *Ctx) { runC04(c); sharedDeclaredRules(c); runExportPred(c, "C04-EXPORT"); base(c, "STATE", "LOOP"); runToStrCases(c, "C04-PATHKEY"); runC04Strip(c, "C04-STRIP"); runFieldIdentity(c, "C04-FIELDID") },
 	})
 }
 
@@ -317,14 +317,35 @@ func runC04Who(c *Ctx) {
 		}
 		got := callers(fn)
 		var extra []string
-		for k := range got {
-			ok := false
+		// a caller is acceptable if it is one of the allowed functions, or an unexported helper of the
+		// same receiver that is itself only called by acceptable functions (code extracted out of them)
+		var acceptable func(name string, depth int) bool
+		acceptable = func(name string, depth int) bool {
 			for _, a := range allowed {
-				if a == k {
-					ok = true
+				if a == name {
+					return true
 				}
 			}
-			if !ok {
+			if depth > 3 {
+				return false
+			}
+			h := p.Method("valid", "VStruct", name)
+			if h == nil || h.Object() == nil || h.Object().Exported() {
+				return false
+			}
+			hc := callers(h)
+			if len(hc) == 0 {
+				return false
+			}
+			for k := range hc {
+				if k == name || !acceptable(k, depth+1) {
+					return false
+				}
+			}
+			return true
+		}
+		for k := range got {
+			if !acceptable(k, 0) {
 				extra = append(extra, k)
 			}
 		}
